@@ -178,10 +178,14 @@ func (c *memConn) Write(p []byte) (int, error) {
 	c.mu.Lock()
 	lc, pc := c.localClosed, c.peerClosed
 	c.mu.Unlock()
-	if lc {
-		return 0, io.ErrClosedPipe
-	}
-	if pc {
+	if lc || pc {
+		// the bytes were still handed to the transport: let the peer record them as emitted-but-lost
+		if rec, ok := c.peer.(interface{ clientWroteOnClosed(*memConn, []byte) }); ok {
+			rec.clientWroteOnClosed(c, p)
+		}
+		if lc {
+			return 0, io.ErrClosedPipe
+		}
 		return 0, errMemBrokenPipe
 	}
 	if err := c.peer.clientWrote(c, p); err != nil {
